@@ -11,6 +11,7 @@ EXPLANATION = (
     'Together with C01\'s monotone pop order this orders the k results best first; that the k scores are the k '
     'largest over all derivations is a semantic consequence not decided here.'
     ' The admissible estimates (row maxima BT/BD, outside tables) and the call-local id-keyed containers are part of this check as well.'
+    ' Third round: every accepted chart entry is expanded unconditionally (search:expansion-unconditional).'
 )
 TRUSTED = ['clang-14 front end', 'CPython ast', 'sa/pyx.py normaliser', 'rule table DESIGN.md C10']
 
@@ -23,6 +24,7 @@ def check(repo, rep, tier):
     rc.r_nbest(m, rep, 'R10.1')
     rc.r_chart(m, rep, 'R10.2')
     rc.r_search_loop(m, rep, 'R10.2')
+    rc.r_expansion_unconditional(m, rep, 'R10.2')   # every accepted entry is expanded: no derivation is left out of the search
     rc.r_priority(m, rep, 'R10.1')
     rc.r_items_immutable(m, rep, 'R10.2')
     rp.r_retrieve_tree(repo, rep, 'R10.3', {'score', 'shape'})
